@@ -105,7 +105,16 @@ def convert(t, var_names, assms, to_real, ctx):
                 body = z3.And(z3_v >= 0, body)
             return z3.Exists(z3_v, body)
         elif t.is_number():
-            return t.dest_number()
+            # A numeral becomes a Z3 value of its own sort: comparisons and
+            # quotients of numerals are then decided by the solver, not by
+            # Python (2 / 6 on Python integers is a float).
+            T = t.get_type()
+            if T in (NatType, IntType):
+                return z3.IntVal(t.dest_number(), ctx)
+            elif T == RealType:
+                return z3.RealVal(t.dest_number(), ctx)
+            else:
+                raise Z3Exception("convert: unsupported numeral " + repr(t))
         elif t.is_implies():
             return z3.Implies(rec(t.arg1), rec(t.arg))
         elif t.is_equals():
